@@ -13,6 +13,12 @@ import XrsVerif.Gen.BufProgs
   inlined, `harness/facts_bufprog.py`).  Each is accepted by the checker (kernel evaluation), hence
   by part 1 no run of it writes an input or returns an input's memory -- except where the contract
   table (`Model/Meta.lean`) documents a view (trim, crop, custom_kernel).
+  Wrapper level (parts 1 and 2): every parameter is a raster object with three input buffers -- cells,
+  coordinates (the memory of its non-index coordinate variables), attrs dict -- and every xarray constructor / copy
+  primitive is an `Op.build` whose three components are fresh / deep / shallow / maybe according to the
+  primitive table `Gen.primTable` (probed on the real xarray on every run).  So `agg.copy(deep=False, data=out)`
+  (the result's coordinates are the input's) and `attrs = raster.attrs; attrs['unit'] = …` (the input's attrs dict
+  is written) are rejected by the checker, with the component named by the driver's diagnostics.
   Part 3 (identity): the returned `DataArray(out, coords=…, dims=…, attrs=…)` takes coords, dims and
   attrs from the input raster, for every function whose contract is `identity`.
   Not covered here (see design_notes/C10.md): that the buffer program abstracts the Python code
@@ -297,7 +303,38 @@ example : safe (Prog.ofItems [.op (.alloc 1), .op (.alloc 2),
 /-- the same loop without the write is accepted, and a branch that copies on one side only is joined -/
 example : safe (Prog.ofItems [.ite (Prog.ofItems [.op (.copyOf 1 0)]) (Prog.ofItems [.op (.viewOf 1 0)]),
     .op (.write 1)]) (inputs 1) 2 = false := by decide
+/-! wrapper level: input raster 0 owns the buffers 0 (cells), 1 (coordinates), 2 (attrs) -/
+/-- the template shape `result = agg.copy(deep=False, data=out)`: rejected … -/
+example : safeAll (Prog.ofItems [.op (.alloc 3),
+    .op (wprim_copy_shallow_data.build ⟨4, 5, 6⟩ (some 3) (some 1) (some 2))]) (inputs 3) [4, 5, 6] = false := by decide
+/-- … and it really has a run in which the coordinates of the result are the input's coordinate buffer while its
+    cells and attrs are fresh -/
+example : ∃ s', Exec (Prog.ofItems [.op (.alloc 3),
+    .op (wprim_copy_shallow_data.build ⟨4, 5, 6⟩ (some 3) (some 1) (some 2))]) (init 3) s' ∧
+    s'.env 5 = some 1 ∧ s'.env 4 = some 3 ∧ s'.env 6 = some 4 := by
+  refine ⟨_, .op (.alloc 3 _) (.op (.build _ _ _ true true false _ ?_ ?_ ?_) (.done _)), ?_, ?_, ?_⟩ <;>
+    simp [Part.admits, Part.mayShare, Part.mayCopy, wprim_copy_shallow_data, St.bindPart, St.bindTo,
+      St.bindFresh, init]
+/-- the constructor shape `DataArray(out, coords=agg.coords, dims=agg.dims, attrs=agg.attrs)` and the deep template
+    `agg.copy(deep=True, data=out)` are accepted -/
+example : safeAll (Prog.ofItems [.op (.alloc 3),
+    .op (wprim_DataArray.build ⟨4, 5, 6⟩ (some 3) (some 1) (some 2))]) (inputs 3) [4, 5, 6] = true := by decide
+example : safeAll (Prog.ofItems [.op (.alloc 3),
+    .op (wprim_copy_deep_data.build ⟨4, 5, 6⟩ (some 3) (some 1) (some 2))]) (inputs 3) [4, 5, 6] = true := by decide
+/-- `try: attrs = deepcopy(raster.attrs) except TypeError: attrs = raster.attrs` followed by `attrs['unit'] = …`:
+    rejected, and the run through the handler writes the input's attrs buffer -/
+example : safeAll (Prog.ofItems [.op (.copyOf 3 2), .ite (Prog.ofItems [.op (.viewOf 3 2)]) .done, .op (.write 3),
+    .op (.alloc 4), .op (wprim_DataArray.build ⟨5, 6, 7⟩ (some 4) (some 1) (some 3))]) (inputs 3) [5, 6, 7] = false := by
+  decide
+example : ∃ s', Exec (Prog.ofItems [.op (.copyOf 3 2), .ite (Prog.ofItems [.op (.viewOf 3 2)]) .done, .op (.write 3)])
+    (init 3) s' ∧ s'.dirty 2 = true := by
+  refine ⟨_, .op (.copyOf 3 2 _) (.iteL (.op (.viewOf 3 2 _) (.done _)) (.op (.write 3 _) (.done _))), ?_⟩
+  simp [St.bindTo, St.bindFresh, St.mark, init]
+/-- a `maybe` component (`astype(copy=False)`) is treated as shared although one resolution is harmless -/
+example : safeAll (Prog.ofItems [.op (wprim_astype_nocopy.build ⟨4, 5, 6⟩ (some 0) (some 1) (some 2)), .op (.write 4)])
+    (inputs 3) [] = false := by decide
 example : 50 ≤ allEntries.length := by decide
+example : primTable.length = 12 := by decide
 example : retConforms (.identity "agg" []) (.ctor (.input "agg") (.input "agg") (.input "agg") (.param "name")) = true := by
   decide
 example : retConforms (.identity "agg" []) (.ctor .absent (.input "agg") (.input "agg") (.param "name")) = false := by
